@@ -1,4 +1,4 @@
 #!/bin/sh
 # coqmake.sh <targets...>  — `make -k -j8 <targets>` in coq/ under the build lock (never run make directly)
 cd "$(dirname "$0")/.."
-exec flock .coq.lock sh -c 'sh tools/coqproject.sh; cd coq && timeout 3000 make -k -j8 "$@" 2>&1 | grep -v "^COQC\|^COQDEP\|conda\|pyenv\|shims"' coqmake "$@"
+exec flock .coq.lock sh -c 'sh tools/coqproject.sh; cd coq && timeout 3000 make -k -j8 COQC="timeout 1500 coqc" "$@" 2>&1 | grep -v "^COQC\|^COQDEP\|conda\|pyenv\|shims"' coqmake "$@"
